@@ -93,10 +93,64 @@ def _d(**kw):
     return r
 
 
+INJECTED = "c09-injected"
+
+
+class _Interrupt(BaseException):
+    """a BaseException that is not an Exception (like KeyboardInterrupt / SystemExit / GeneratorExit)"""
+
+
+EXC = dict(B=_Interrupt, K=KeyboardInterrupt, S=SystemExit)
+
+
+def _injected(e):
+    return isinstance(e, tuple(EXC.values())) and e.args == (INJECTED,)
+
+
+class _IntUnits:
+    """a units mapping whose items() is interrupted by a BaseException before the k-th definition is delivered"""
+
+    def __init__(self, pairs, k, exc):
+        self.pairs, self.k, self.exc = pairs, k, exc
+
+    def items(self):
+        for i, (sym, unit) in enumerate(self.pairs, 1):
+            if i == self.k:
+                raise EXC[self.exc](INJECTED)
+            yield sym, unit
+
+
+class _IntDict(dict):
+    """a unit definition whose 'magnitude' access is interrupted by a BaseException (the registration loop has
+    already inserted the definition's conversion class at that point)"""
+    exc = "B"
+
+    def __getitem__(self, key):
+        if key == "magnitude":
+            raise EXC[self.exc](INJECTED)
+        return dict.__getitem__(self, key)
+
+
+def _intdict(d, exc):
+    r = _IntDict(d)
+    r.exc = exc
+    return r
+
+
+_ISYM = ["Xd", "Xe", "Xi"]
+
+
 def _build(name):
     """fresh definition dict of a unit set (the library mutates these dicts)"""
     from scinumtools.units import Quantity
     c = _classes()
+    if name in BAD_INT:
+        mode, k, exc = name[0], int(name[1]), name[2]
+        pairs = [(sym, _d()) for sym in _ISYM[:k]]
+        if mode == "I":      # iteration interrupted before the k-th definition
+            return _IntUnits(pairs, k, exc)
+        pairs[k - 1] = (_ISYM[k - 1], _intdict(_d(definition=c["CT2"]), exc))
+        return dict(pairs)   # value access of the k-th definition interrupted
     if name == "A":
         return {"Xa": _d()}
     if name == "AB":
@@ -141,10 +195,16 @@ def _build(name):
 
 GOOD = ["A", "AB", "BC", "CA", "Q", "T", "TU", "LM"]
 BAD = ["D1", "D2", "D3", "KM", "PA", "M1", "M2", "MT", "ZZ", "TD", "QD"]
+# registration interrupted by a non-Exception BaseException at step k = 1, 2, 3: I<k><e> while the mapping is iterated,
+# V<k><e> while the k-th definition is read; <e> = B (custom BaseException), K (KeyboardInterrupt), S (SystemExit)
+BAD_INT = [m + str(k) + e for m in "IV" for k in (1, 2, 3) for e in "BKS"]
+INT_REPR = ["I2K", "V2S"]      # representatives used in the un-pruned hist part
 SYMS = dict(A=["Xa"], AB=["Xa", "Xb"], BC=["Xb", "Xc"], CA=["Xc", "Xa"], Q=["Xq", "Xr"], T=["Xi"],
             TU=["Xj", "Xv", "Xw"], LM=["[mas]"],
             D1=["m", "Xd"], D2=["Xd", "m"], D3=["Xd", "Xe", "g"], KM=["Xd", "km"], PA=["a"], M1=["Xe"],
             M2=["Xd", "Xe"], MT=["Xe"], ZZ=["Xd"], TD=["Xi", "m"], QD=["Xq", "s"])
+for _n in BAD_INT:
+    SYMS[_n] = _ISYM[:int(_n[1]) - (1 if _n[0] == "I" else 0)]
 # spellings that must work inside the scope (symbols + admissible prefixed forms)
 PROBE = dict(SYMS, BC=["Xb", "kXb", "MXb", "Xc", "mXc", "GXc"])
 # features of the input, used as tags
@@ -154,6 +214,10 @@ FAULT = dict(D1="dup-table-symbol-at-1", D2="dup-table-symbol-at-2", D3="dup-tab
              TD="dup-table-symbol-at-2+conversion-class", QD="dup-table-symbol-at-2+quantity")
 # number of registrations / class insertions done by the loop before the failing step (static, for tags only)
 BEFORE = dict(D1=0, D2=1, D3=2, KM=2, PA=1, M1=0, M2=1, MT=1, ZZ=1, TD=1, QD=1)
+for _n in BAD_INT:
+    FAULT[_n] = "%s-interrupted-at-%s:%s" % ("iteration" if _n[0] == "I" else "definition-access+conversion-class",
+                                             _n[1], EXC[_n[2]].__name__)
+    BEFORE[_n] = int(_n[1]) - (1 if _n[0] == "I" else 0)
 CUSTOM = ["Xa", "Xb", "Xc", "Xd", "Xe", "Xq", "Xr", "Xi", "Xj", "Xv", "Xw", "[mas]", "[len]", "[vel]", "[bad]", "kXb", "MXb",
           "mXc", "GXc", "a"]
 
@@ -184,7 +248,7 @@ def _predict_fail(stack, op):
         return bool(set(SYMS[op[1]]) & _open_syms(stack))
     if op[0] == "dip":
         return op[1] == "DFL" or (op[1] == "DMS" and "[mas]" in _open_syms(stack))
-    return op[0] == "raise"
+    return op[0] in ("raise", "interrupt")
 
 
 def _step(stack, op):
@@ -194,7 +258,7 @@ def _step(stack, op):
         return stack if _predict_fail(stack, op) else stack + (op[1],)
     if k == "end":
         return stack[:-1]
-    if k == "raise":
+    if k in ("raise", "interrupt"):
         return stack[:len(stack) - op[1]]
     if k in ("fail", "dip"):
         return stack[:len(stack) - op[2]] if _predict_fail(stack, op) else stack
@@ -217,6 +281,9 @@ def _enabled(stack, alpha):
         ops.append(("end",))
         for k in (range(1, d + 1) if alpha["allk"] else sorted({1, d})):
             ops.append(("raise", k))
+        if alpha.get("interrupt"):
+            for k in range(1, d + 1):
+                ops.append(("interrupt", k))
     for t in alpha["dip"]:
         if t == "DFL":
             for k in ks:
@@ -229,8 +296,8 @@ def _enabled(stack, alpha):
     return ops
 
 
-A_FULL = dict(good=GOOD, bad=BAD, styles=["with", "explicit"], dip=DIP_OPS, allk=False)
-A_GRAPH = dict(A_FULL, allk=True)
+A_FULL = dict(good=GOOD, bad=BAD + INT_REPR, styles=["with", "explicit"], dip=DIP_OPS, allk=False)
+A_GRAPH = dict(A_FULL, bad=BAD + BAD_INT, allk=True, interrupt=True)
 A_CORE = dict(good=CORE_GOOD, bad=CORE_BAD, styles=["with"], dip=["DFL"], allk=False)
 
 
@@ -428,6 +495,12 @@ class _Unwind(Exception):
         self.k, self.idx = k, idx
 
 
+class _UnwindB(BaseException):
+    """like _Unwind, but not an Exception (the body is interrupted)"""
+    def __init__(self, k, idx):
+        self.k, self.idx = k, idx
+
+
 class _End(BaseException):
     pass
 
@@ -521,7 +594,7 @@ class Run:
                 self.body(0)
             except _End:
                 pass
-            except _Unwind:
+            except (_Unwind, _UnwindB):
                 if self.fail is None and not self.abort:
                     raise HarnessError("history unwinds below depth 0: %r" % (self.h,))
             if self.fail is None:
@@ -564,6 +637,10 @@ class Run:
                 if not 1 <= op[1] <= depth:
                     raise HarnessError("raise beyond depth: %r" % (self.h,))
                 raise _Unwind(op[1], idx)
+            elif k == "interrupt":
+                if not 1 <= op[1] <= depth:
+                    raise HarnessError("interrupt beyond depth: %r" % (self.h,))
+                raise _UnwindB(op[1], idx)
             elif k in ("open", "fail"):
                 self.scope(op, idx, depth)
             elif k == "dip":
@@ -594,15 +671,19 @@ class Run:
                     constructed = True
                     self.opened(sname, "with", env, predicted_fail, idx, depth)
                     ended = self.body(depth + 1)
-        except (_End, _Unwind) as e:
+        except (_End, _Unwind, _UnwindB) as e:
             exc = e
         except HarnessError:
             raise
         except Exception as e:      # raised by the library: failed construction, or close()/__exit__ raising
             exc = e
+        except BaseException as e:  # the BaseException injected into the registration (anything else is not ours)
+            if not _injected(e):
+                raise
+            exc = e
         if constructed:
             self.stack.pop()
-        lib_exc = exc is not None and not isinstance(exc, (_End, _Unwind))
+        lib_exc = exc is not None and not isinstance(exc, (_End, _Unwind, _UnwindB))
         tags = self.ctx_tags(depth) + ["set:" + sname]
         if sname in FAULT:
             tags += ["fault:" + FAULT[sname]]
@@ -631,10 +712,10 @@ class Run:
         # ---- where does control go now
         if isinstance(exc, _End):
             raise exc
-        if isinstance(exc, _Unwind):
+        if isinstance(exc, (_Unwind, _UnwindB)):
             if exc.k > 1:
-                raise _Unwind(exc.k - 1, exc.idx)
-            self.done(exc.idx, "unwound")
+                raise type(exc)(exc.k - 1, exc.idx)
+            self.done(exc.idx, "unwound" if isinstance(exc, _Unwind) else "unwound-by-interrupt")
             return
         if exc is None:
             self.done(ended if ended is not None else idx, "exit-normal")
@@ -645,8 +726,8 @@ class Run:
                          "%s: %s" % (type(exc).__name__, str(exc)[:200]), tags, "valid-registration-raises")
             k = arg if kind == "fail" else 0
             if k > 0:
-                raise _Unwind(k, idx)
-            self.done(idx, "construction-failed")
+                raise (_UnwindB if _injected(exc) else _Unwind)(k, idx)
+            self.done(idx, "construction-interrupted" if _injected(exc) else "construction-failed")
             return
         self.done(idx, "exit-raised")
 
@@ -907,6 +988,67 @@ def _dip_case(ctx, lines, split=0):
     return res, bad
 
 
+# DIP route, registration interrupted: the custom units come from a first parse; one of the definitions held by the
+# returned environment is replaced by one whose access raises a non-Exception BaseException; a second parse on that
+# environment then reaches, as its first unit scope, the call site named by the key
+DIPINT_FIRST = "$unit len = 2 cm\n$unit mas = 3 g\nw float = 3 [len]\n"
+DIPINT = dict(
+    node_unit="$unit vel = 3 [len]/s\n",
+    node_float="p float = 3 [len]\n",
+    node_integer="y int = 3 [len]\n",
+    convert_modification="w = 8 cm\n",
+    numerical_solver="e float = (\"1 [len] + 2 cm\") cm\n",
+    logical_solver="b bool = (\"1 [len] > 1 cm\")\n",
+)
+
+
+def _dipint_case(site, exc, ctx):
+    """returns (what happened, failure or None)"""
+    from scinumtools.units import UnitEnvironment
+    if _diff(_PRISTINE):
+        raise HarnessError("tables not pristine at the start of a case: %s" % iso.tables_diff())
+    case = dict(route="dipint", site=site, exc=exc, ctx=ctx)
+    tags = ["ctx:" + ctx, "interrupted-in:" + site, "registration-interrupted-at-2:" + EXC[exc].__name__]
+    bad, what = None, None
+    try:
+        outer = UnitEnvironment(_build("A")) if ctx == "inA" else None
+        try:
+            entry = _snap()
+            keep = []
+            env = _run_dip(DIPINT_FIRST, keep=keep)
+            env.units.units["[mas]"] = _intdict(env.units.units["[mas]"], exc)
+            try:
+                _run_dip(DIPINT[site], env, keep=keep)
+                what = "not-interrupted"
+            except Exception as e:
+                what = "raised-" + type(e).__name__
+            except BaseException as e:
+                if not _injected(e):
+                    raise
+                what = "interrupted"
+            d = _diff(entry)
+            if d:
+                bad = failure("dip-parse", case, "tables equal the snapshot taken before DIP.parse()", d, tags=tags,
+                              behaviour=_behaviour(d))
+            elif _usable("[len]"):
+                bad = failure("dip-gone-outside", case, "Quantity(1,'[len]') raises after the parse", "works",
+                              tags=tags, behaviour="custom-unit-survives")
+        finally:
+            if outer is not None:
+                outer.close()
+        if bad is None:
+            d = _diff(_PRISTINE)
+            if d:
+                bad = failure("depth0-pristine", case, "tables equal the pristine snapshot at depth 0", d, tags=tags,
+                              behaviour=_behaviour(d))
+    finally:
+        left = _restore()
+    if left and bad is None:
+        bad = failure("depth0-pristine", case, "tables equal the pristine snapshot at depth 0", left, tags=tags,
+                      behaviour=_behaviour(left))
+    return what, bad
+
+
 def _dip_explore(ctx, first, maxlen, sh):
     """BFS over line programs starting with `first`: a program is extended only if it parsed (a failed program is a
     leaf); shorter programs first, so the first record of a failure class is a shortest one"""
@@ -972,7 +1114,7 @@ def plan(tier, seed):
     opens = [("open", s, st) for s in GOOD for st in ("with", "explicit")]
     first, rest = [], []
     # dip route: few, comparatively long shards
-    dips = [("dip", (ctx, ln), tier) for ctx in DIP_CTX for ln in LNAMES]
+    dips = [("dip", (ctx, ln), tier) for ctx in DIP_CTX for ln in LNAMES] + [("dipint", None, tier)]
     # graph: partition of the state graph by the bottom scopes of the stack
     first.append(("graph", (), tier))
     for a in opens:
@@ -1003,7 +1145,7 @@ def _cycles():
         for st in ("with", "explicit"):
             c.append((("open", s, st), ("end",)))
             c.append((("open", s, st), ("raise", 1)))
-    for f in BAD:
+    for f in BAD + BAD_INT:
         c.append((("fail", f, 0),))
     return c
 
@@ -1045,6 +1187,18 @@ def run_shard(desc):
     elif kind == "dip":
         ctx, ln = arg
         _dip_explore(ctx, [ln], LDIP[tier], sh)
+    elif kind == "dipint":
+        for ctx in ("top", "inA"):
+            for site in DIPINT:
+                for exc in EXC:
+                    what, bad = _dipint_case(site, exc, ctx)
+                    sh.evaluations += 1
+                    sh.traces += 1
+                    sh.transitions += 1
+                    sh.nontrivial += 1
+                    sh.count("dipint-%s-%s" % (site, what))
+                    if bad is not None:
+                        _report(sh, bad)
     else:
         raise HarnessError("unknown shard kind %r" % (kind,))
     sh.extra.pop("_cls", None)
@@ -1100,6 +1254,8 @@ def replay(rec):
     c = rec["case"]
     if c.get("route") == "dip":
         return _dip_case(c["ctx"], list(c["lines"]), c.get("split", 0))[1]
+    if c.get("route") == "dipint":
+        return _dipint_case(c["site"], c["exc"], c["ctx"])[1]
     return Run(c["history"]).go()
 
 
@@ -1108,7 +1264,9 @@ def finish(total, tier, seed):
     total.states = len(states)
     h = total.hist
     need = ["last:opened", "last:exit-normal", "last:unwound", "last:construction-failed", "last:dip-ok",
-            "last:dip-err", "dip-top-ok", "dip-top-err", "dip-inLM-err", "dip-split-ok"]
+            "last:dip-err", "dip-top-ok", "dip-top-err", "dip-inLM-err", "dip-split-ok",
+            "last:construction-interrupted", "last:unwound-by-interrupt"]
+    need += ["dipint-%s-interrupted" % site for site in DIPINT]
     missing = [k for k in need if not h.get(k)]
     if missing:
         raise HarnessError("vacuous run: no case with outcome(s) %s" % missing)
@@ -1117,7 +1275,8 @@ def finish(total, tier, seed):
     return dict(states=len(states), nesting_bound=NEST, deviation_bound=MAXFAULT,
                 unpruned_length_full_alphabet=LF[tier], unpruned_length_core_alphabet=LC[tier],
                 dip_program_length=LDIP[tier], good_sets=GOOD, failing_sets={k: FAULT[k] for k in BAD},
-                dip_lines=len(LNAMES), dip_contexts=DIP_CTX, caps_hit=[])
+                dip_lines=len(LNAMES), dip_contexts=DIP_CTX, interrupted_registrations=BAD_INT,
+                dip_sites_interrupted=sorted(DIPINT), caps_hit=[])
 
 
 MANIFEST = dict(
